@@ -238,6 +238,51 @@ def random_program(rng, max_fibers=4, max_ops=4, max_ch=3, max_cap=2, max_clause
     return assign_values({"limits": limits, "fibers": fibers})
 
 
+def ringwrap_program(rng):
+    """A pump fiber sends `pre` values through channel 0 by itself (give / take in runs no longer than the capacity), so
+    that the items ring buffer's head and tail walk round (the ring has 4 slots at first, 10 after the first resize), then
+    fills the channel to its capacity and does a select with a give clause on it (or a plain give); other fibers take /
+    give / select at random.  Programs are long (up to ~30 ops in the pump) but use 1-2 channels."""
+    nch = rng.range(1, 2)
+    limits = [rng.range(1, 3)] + [rng.range(0, 2) for _ in range(nch - 1)]
+    lim = limits[0]
+    nf = rng.range(2, 3)
+    pump_at = rng.below(nf)
+    fibers = []
+    for f in range(nf):
+        ops = []
+        if f == pump_at:
+            pre = rng.range(0, 11)
+            while pre > 0:
+                run = min(pre, rng.range(1, lim))
+                ops += [("g", 0, 0)] * run + [("t", 0)] * run
+                pre -= run
+            ops += [("g", 0, 0)] * lim
+            if rng.chance(4, 5):
+                cls = [("g", 0, 0)]
+                if nch > 1 and rng.chance(1, 2):
+                    cls.insert(rng.below(2), ("t", 1) if rng.chance(1, 2) else ("g", 1, 0))
+                ops.append(("r" if rng.chance(1, 4) else "s", cls))
+            else:
+                ops.append(("g", 0, 0))
+            if rng.chance(1, 2):
+                ops.append(("t", nch - 1))
+        else:
+            for _ in range(rng.range(1, 4)):
+                r = rng.below(10)
+                c = rng.below(nch)
+                if r < 4:
+                    ops.append(("t", c))
+                elif r < 6:
+                    ops.append(("g", c, 0))
+                elif r < 7:
+                    ops.append(("y",))
+                else:
+                    ops.append(("s", [("t", c)] if rng.chance(1, 2) else [("g", c, 0)]))
+        fibers.append(ops)
+    return assign_values({"limits": limits, "fibers": fibers})
+
+
 # ------------------------------------------------------------------------------------------------ log parsing
 STATE_RE = re.compile(r"\|c(\d+) i=(\S*) r=(\S*) w=(\S*) X=(\d)")
 
@@ -311,7 +356,7 @@ def oracle(prog, verdict, log):
     stats = {"gives_immediate": 0, "gives_blocked": 0, "takes_ready": 0, "takes_waited": 0, "selects_immediate": 0,
              "selects_waited": 0, "close_wakes": 0, "received": 0, "nil_results": 0, "losing_give_delivered": 0,
              "deadlocks": 0, "errors": 0, "stale_tasks_in_runq": 0, "cancelled_fibers": 0, "kept_checks": 0,
-             "kept_checks_select": 0}
+             "kept_checks_select": 0, "select_gives_immediate": 0}
     try:
         ev = parse_log(log)
     except Exception as e:  # malformed log is a result too
@@ -335,6 +380,7 @@ def oracle(prog, verdict, log):
     open_op = {}             # fiber -> (i, B-state, index in ev)
     expect_close = {}        # fiber -> (expected result, chan)  set by a close on a live waiter
     select_result = {}       # (f, i) -> result
+    select_waited_checked = set()
     last_state = None
 
     def check_state(st, where):
@@ -363,6 +409,17 @@ def oracle(prog, verdict, log):
             elif k == "t":
                 want = {("r", op[1], "R")}
             elif k in "sr":
+                # a select that is suspended: at its beginning no clause was ready (capacity / blocking rule of select)
+                if bidx not in select_waited_checked:
+                    select_waited_checked.add(bidx)
+                    for cl in op[1]:
+                        bch = bst["chans"][cl[1]]
+                        blr = [x for x in bch["r"] if live(x, bst)]
+                        ready = bch["closed"] or (bool(bch["items"]) if cl[0] == "t" else (len(bch["items"]) < prog["limits"][cl[1]] or bool(blr)))
+                        if ready:
+                            fails.append(("select-blocking-rule", "fiber %d op %d: select %s waited although its clause %s was ready "
+                                          "(channel %d: items %r, limit %d, live readers %d, closed %s)" % (
+                                              f, i, op_tok(op), clause_tok(cl), cl[1], bch["items"], prog["limits"][cl[1]], len(blr), bch["closed"])))
                 if len(set(cl[1] for cl in op[1])) != len(op[1]):
                     continue
                 want = set(("r", cl[1], "r") if cl[0] == "t" else ("w", cl[1], "w") for cl in op[1])
@@ -532,6 +589,17 @@ def oracle(prog, verdict, log):
             parts = res.split(":")
             if parts[0] == "give" and len(parts) == 2:
                 ok = any(cl[0] == "g" and cl[1] == int(parts[1]) for cl in op[1])
+                if ok and immediate and len(set(cl[1] for cl in op[1])) == len(op[1]):
+                    # (a select naming a channel twice can be matched with itself and resumed with no event in between)
+                    # capacity rule for a give clause: it completes at once only below capacity or with a taker waiting
+                    gc = int(parts[1])
+                    gch = st["chans"][gc]
+                    glr = [x for x in gch["r"] if live(x, st)]
+                    stats["select_gives_immediate"] += 1
+                    if not (len(gch["items"]) < prog["limits"][gc] or glr):
+                        fails.append(("select-give-blocking-rule", "fiber %d op %d: select %s completed its give clause on channel %d at once "
+                                      "although the channel was at capacity (count %d, limit %d) with no taker waiting" % (
+                                          f, i, op_tok(op), gc, len(gch["items"]), prog["limits"][gc])))
             elif parts[0] == "take" and len(parts) == 3:
                 ok = any(cl[0] == "t" and cl[1] == int(parts[1]) for cl in op[1])
                 if ok:
